@@ -1,5 +1,5 @@
 (* C16 — DAG: Run always finishes, keeps ready tasks running, and rejects cycles up front. *)
-From GO Require Import Base.Str Model.Tree Model.Dag Proofs.DagHold Proofs.DagSort Proofs.DagInv.
+From GO Require Import Base.Str Model.Tree Model.Dag Proofs.DagHold Proofs.DagSort Proofs.DagInv Proofs.DagProgress Proofs.DagFuel Proofs.DagTerm Proofs.DagBuild.
 
 (* DepthFirstSort, for every iteration order of the vertex map: a successful sort lists every
    vertex it was asked about, none twice, every dependency before its dependent *)
@@ -38,3 +38,59 @@ Theorem C16_launched_was_ready :
   forall a, d_thread st a <> NotSpawned -> forall c, In c (children g a) -> In c (d_okdone st).
 Proof. exact launched_was_ready. Qed.
 Print Assumptions C16_launched_was_ready.
+
+(* ---- Run always finishes ---- *)
+
+(* Progress (no deadlock, no idle spinning while work remains): in every state of every schedule of
+   every graph the construction API can build and DepthFirstSort accepts (this is exactly when Run
+   enters its loop), with any limit >= 1 (SetMaxParallel ignores values < 1), as long as Run has
+   not returned and no other graph holds a Task lock, some transition other than idling,
+   cancellation or a move of another graph is enabled: a completion is received, a waiting thread
+   takes a slot, a running task function returns, the scheduler picks a vertex, or Run returns.
+   In particular whenever nothing is running or pending and not everything is done, some vertex
+   is eligible ("a ready task is started while capacity remains"). *)
+Theorem C16_progress :
+  forall ops cf ls st,
+    let g := build_graph ops in
+    dsteps g cf (init_state []) ls = Some st ->
+    (exists l, dfs_sort g (vids g) = Some (inl l)) -> (0 < cf_cap cf)%N ->
+    d_returned st = false -> (forall v, d_envlock st v = false) ->
+    exists l st', productive l = true /\ dstep g cf st l = Some st'.
+Proof. exact built_progress_acyclic. Qed.
+Print Assumptions C16_progress.
+
+(* the graph-theoretic core: when no vertex is in progress, either all are done or one is eligible *)
+Theorem C16_no_stall :
+  forall g st l,
+    NoDup l -> (forall v, In v (vids g) -> In v l) ->
+    (forall u, In u l -> forall c, In c (children g u) -> before c u l) ->
+    closed g -> (forall v, In v (vids g) -> d_status st v <> InProgress) ->
+    all_done g st = true \/ exists u, In u (vids g) /\ eligible g st u = true.
+Proof. exact stall_free. Qed.
+Print Assumptions C16_no_stall.
+
+(* the modelled recursion of skipParents never runs out of fuel on such a graph: receiving a
+   completion is always defined *)
+Theorem C16_receive_defined :
+  forall g cf, (forall p c, In c (children g p) <-> In p (parents g c)) ->
+  forall l, NoDup l -> (forall v, In v (vids g) -> In v l) ->
+    (forall u, In u l -> forall c, In c (children g u) -> before c u l) ->
+    (forall v, In v l -> In v (vids g)) ->
+  forall st v r real, Inv g cf st -> In v (vids g) -> receive g st v r real <> None.
+Proof. exact receive_defined. Qed.
+Print Assumptions C16_receive_defined.
+
+(* Termination: every such transition strictly decreases a lexicographic measure (remaining
+   thread work incl. retries; vertices still to be picked plus pending reports; not yet returned),
+   so no schedule contains infinitely many of them.  With C16_progress: under fairness (task
+   functions return, other graphs release Task locks) Run returns. *)
+Theorem C16_measure_decreases :
+  forall g cf st l st',
+    Inv g cf st -> dstep g cf st l = Some st' -> productive l = true -> lex3 (mu g st') (mu g st).
+Proof. exact productive_decreases. Qed.
+Print Assumptions C16_measure_decreases.
+
+Theorem C16_termination : forall g cf, well_founded (pstep g cf).
+Proof. exact productive_steps_terminate. Qed.
+Print Assumptions C16_termination.
+
